@@ -466,10 +466,10 @@ def methods(draw, u, it, name):
             ty = draw(input_types(u, lt_pool))
         params.append([pnames[i], ty, []])
     # return
-    rk = draw(st.sampled_from(["none", "plain", "plain", "plain", "result", "write", "resultwrite"]))
+    rk = draw(st.sampled_from(["none", "plain", "plain", "plain", "result", "write", "resultwrite"] + (["optunit", "optunitwrite"] if p.get("opt_unit", True) and p["option"] else [])))
     if not p.get("results", True) and rk in ("result", "resultwrite"):
         rk = "plain"
-    if not p.get("write", True) and rk in ("write", "resultwrite"):
+    if not p.get("write", True) and rk in ("write", "resultwrite", "optunitwrite"):
         rk = "none"
     ret = None
     if rk == "plain":
@@ -484,7 +484,9 @@ def methods(draw, u, it, name):
         if p.get("err_custom_only") and err[0] not in ("unit", "enum", "struct", "box", "ref"):
             err = ["unit"]
         ret = ["result", ok, err, sp]
-    if rk in ("write", "resultwrite"):
+    if rk in ("optunit", "optunitwrite"):
+        ret = ["opt", ["unit"], "std"]      # Option<()>: "did it work" without a payload (with a write: an optional string)
+    if rk in ("write", "resultwrite", "optunitwrite"):
         params.append([pnames[n] if pnames[n] != "write" else "w", ["write"], []])
     # spell some occurrences of the surrounding type as `Self`
     if p.get("self_spelling", True):
